@@ -482,17 +482,26 @@ def gen_edits(rng, spec, kinds=('index', 'radius', 'thickness', 'conic'), nmax=2
 
 
 def apply_edits(lens, spec, edits):
-    """Apply edits to the live lens through the public setters; returns the spec of the edited prescription."""
+    """Apply edits to the live lens through the public setters (lens=None: to the spec only); returns the spec of the
+    edited prescription."""
     import copy
     spec = copy.deepcopy(spec)
     for kind, k, v in edits:
         su = spec['surfaces'][k - 1]
         if kind == 'index':
-            lens.set_index(v, k); su['medium'] = {'n': v}
+            su['medium'] = {'n': v}
+            if lens is not None:
+                lens.set_index(v, k)
         elif kind == 'radius':
-            lens.set_radius(v, k); su['radius'] = v
+            su['radius'] = v
+            if lens is not None:
+                lens.set_radius(v, k)
         elif kind == 'conic':
-            lens.set_conic(v, k); su['conic'] = v
+            su['conic'] = v
+            if lens is not None:
+                lens.set_conic(v, k)
         else:
-            lens.set_thickness(v, k); su['t'] = v
+            su['t'] = v
+            if lens is not None:
+                lens.set_thickness(v, k)
     return spec
